@@ -175,7 +175,15 @@ func c05Catalogue(ctx *core.Ctx) ([]FaultCase, error) {
 				for ni, name := range names {
 					fs := byName[name]
 					f := fs[(rot+ti+ni)%len(fs)]
-					add(devs[(rot+ti+ni)%3], f, kinds[(rot+ti+ni)%len(kinds)])
+					// the alteration that stays well-formed (+1) at the first and at the last position of the committee
+					// (attribution mistakes tend to depend on the position), one rotating kind at the middle one
+					add(devs[0], f, "plus1")
+					if devs[2] != devs[0] {
+						add(devs[2], fs[(rot+ti+ni+1)%len(fs)], "plus1")
+					}
+					if r.base.cost <= 1 {
+						add(devs[1], f, kinds[1+(rot+ti+ni)%(len(kinds)-1)])
+					}
 				}
 				f := fis[(rot+ti)%len(fis)]
 				addReplace(devs[(rot+ti)%3], f, []string{"plus1", "random"}[(rot+ti)%2])
